@@ -15,7 +15,7 @@ pub fn def() -> PropDef {
         generate,
         check,
         nontrivial,
-        rule: "enumeration (by run index) of all 15 non-empty subsets of {Addr, OwningAddr, Sender, Caller} left alive after a generated conversion/drop program (handles derived along different conversion chains, dropped in random order), then: interval ticks counted on the virtual clock, every weak handle taken earlier upgraded, identity asked through every surviving callable handle, and Context::stop / Context::restart / weak self-upgrade issued from inside a handler reached through a surviving handle; x seeded schedules; non-trivial = the surviving subset is not the full set; distinct = distinct order of client-op and callback events",
+        rule: "enumeration (by run index) of all 15 non-empty subsets of {Addr, OwningAddr, Sender, Caller} left alive after a generated conversion/drop program (handles derived along different conversion chains, some replaced by clones of themselves, dropped in random order), then: interval ticks counted on the virtual clock, every weak handle taken earlier upgraded, identity asked through every surviving callable handle, and Context::stop / Context::restart / weak self-upgrade issued from inside a handler reached through a surviving handle; x seeded schedules; non-trivial = the surviving subset is not the full set; distinct = distinct order of client-op and callback events",
         needed_probes: &["c15_upgrade_checked", "c15_ctx_op_checked", "c15_ticks_checked", "c15_identity_checked", "c15_subset_1", "c15_subset_8", "c15_subset_15"],
         quick_runs: 100_000,
         thorough_runs: 1_000_000,
@@ -81,6 +81,16 @@ pub fn generate(g: &mut G, index: u64) -> Scenario {
     }
     if g.chance(1, 2) {
         ops.push(Op::Ping { h: 0 });
+    }
+    // "(or clone)": some of the handles that will be kept are replaced by clones of themselves
+    for k in [HKind::Addr, HKind::Sender, HKind::Caller] {
+        if keep.contains(&k) && g.chance(1, 3) {
+            let s = slot_of(k);
+            ops.push(Op::Clone { h: s, to: 7 });
+            ops.push(Op::Drop { h: s });
+            ops.push(Op::Clone { h: 7, to: s });
+            ops.push(Op::Drop { h: 7 });
+        }
     }
     // drop what is not in the subset, in random order
     let mut drops: Vec<HKind> = KINDS.iter().copied().filter(|k| !keep.contains(k)).collect();
